@@ -326,6 +326,11 @@ def gen_mhist(rng):
     pool = c.pop('frags')
     if pool[0][0] is None:                    # the constructor gets a fragment with an R1 (a strand)
         pool.sort(key=lambda f: f[0] is None)
+    if rng.random() < 0.7:                    # read-out errors in the first fragment, to be out-voted later
+        flip = {'C': 'T', 'T': 'C', 'G': 'A', 'A': 'G'}
+        for r in pool[0]:
+            if r is not None:
+                r['seq'] = ''.join(flip.get(ch, ch) if rng.random() < 0.3 else ch for ch in r['seq'])
     ops = [['add', pool[0]]]
     if rng.random() < 0.85:
         ops.append(['fin'])
@@ -734,7 +739,7 @@ class Prop(fw.PropBase):
         for m in mhists:
             for op in m['ops']:
                 hist['op_' + op[0]] += 1
-        hist['history_molecules'] = len(cases) - self.n_single
+        hist['history_molecules'] = self.n_hist_end - self.n_single
         self.cov.update({
             'evaluations': len(cases),
             'distinct_nontrivial': len(nontrivial),
